@@ -125,7 +125,9 @@ example : Gen.ListLocks.ownedVariants.length = 2 := rfl
     shapes, both proved correct — locks taken one after the other, or (after the
     repairs made for C16) both operands locked in address order -/
 theorem lock_facts_as_proved :
-    Gen.ListLocks.typedEqLocks = [.self_, .other] ∧ Gen.ListLocks.typedEqCompare = (0, 1) ∧
+    Gen.ListLocks.typedEqLocksLt = [.self_, .other] ∧ Gen.ListLocks.typedEqCompareLt = (0, 1) ∧
+      ((Gen.ListLocks.typedEqLocksGe = [.self_, .other] ∧ Gen.ListLocks.typedEqCompareGe = (0, 1)) ∨
+        (Gen.ListLocks.typedEqLocksGe = [.other, .self_] ∧ Gen.ListLocks.typedEqCompareGe = (1, 0))) ∧
       Gen.ListLocks.typedEqShortcut = true ∧ Gen.ListLocks.erasedEqShortcut = true ∧
       Gen.ListLocks.erasedEqLocksLt = [.self_, .other] ∧ Gen.ListLocks.erasedEqCompareLt = (0, 1) ∧
       ((Gen.ListLocks.erasedEqLocksGe = [.self_, .other] ∧ Gen.ListLocks.erasedEqCompareGe = (0, 1)) ∨
@@ -318,7 +320,7 @@ example : (runSt 8 (St.init 1) [.fromVec 0 [1, 2], .concat 0 0 0]).getAlloc 0
     — both `List<T>::eq` (typed, Rust API) and `ErasedList::eq` (scripts)
     return list equality and leave the store as it was: no lock is taken twice.
     The lock targets are the generated ones: with `[self, self]` (the pinned
-    tree) `typedEq_def` does not check and this theorem fails. -/
+    tree) `typedEq_ok` does not check and this theorem fails. -/
 theorem eq_terminates (sz n : Nat) (ops : List Op) (a b x y : Nat) (lx ly : RawList) (typed : Bool)
     (hsa : (runSt sz (St.init n) ops).slots[a]? = some (some x))
     (hsb : (runSt sz (St.init n) ops).slots[b]? = some (some y))
@@ -334,9 +336,8 @@ theorem eq_terminates (sz n : Nat) (ops : List Op) (a b x y : Nat) (lx ly : RawL
     simp only [stepE, slot_ok hsa, slot_ok hsb]
     cases typed with
     | true =>
-      simp only [if_true, typedEq_def]
-      exact eqWith_ok inv hx hy _
-        (rawEqTyped_eq (a := { lx with locked := true }) (b := { ly with locked := true }) wx wy)
+      simp only [if_true]
+      exact typedEq_ok inv hx hy
     | false =>
       simp only [Bool.false_eq_true, if_false]
       exact erasedEq_ok inv hx hy
